@@ -218,6 +218,7 @@ c12_value_harness!(c12_modval_ds_s0_p0_w, true, false, 0, 0, true);
 c12_value_harness!(c12_modval_us_s1_p0_u, false, false, 1, 0, false);
 c12_value_harness!(c12_modval_ds_s1_p1_w, true, false, 1, 1, true);
 c12_value_harness!(c12_modval_um_s2_p0_w, false, true, 2, 0, true);
+c12_value_harness!(c12_modval_um_s2_p0_u, false, true, 2, 0, false);
 c12_value_harness!(c12_modval_dm_s2_p2_w, true, true, 2, 2, true);
 c12_value_harness!(c12_modval_us_s5_p0_w, false, false, 5, 0, true);
 c12_value_harness!(c12_modval_ds_s5_p1_u, true, false, 5, 1, false);
